@@ -166,7 +166,7 @@ def inverse(ctx):
                 obs.append(Ob('SA-ACCT.inverse', key, False, ctx.loc(bad[0], bad[1]), bad[2]))
             else:
                 obs.append(Ob('SA-ACCT.inverse', key, True, ctx.loc(fs, S[tgt][0][3])))
-    if npairs < 15:
+    if npairs < 10:
         raise AnalysisError('anchor-vanished: paired accounting targets (%d)' % npairs)
     return obs
 
